@@ -491,11 +491,16 @@ pub fn lazy(cx: &mut Ctx) {
             mcall(T::List(vec![lit(V::Int(1))]), "filter", vec![id("e"), id("x")]),
             mcall(T::List(vec![lit(V::Int(1))]), "exists_one", vec![id("e"), id("x")]),
             mcall(T::List(vec![lit(V::Int(1))]), "map", vec![id("e"), id("x"), lit(V::Int(7))]),
+            // the same truthiness when the macro runs over a map
+            mcall(T::Map(vec![(lit(V::Str("k".into())), lit(V::Int(1)))]), "filter", vec![id("e"), id("x")]),
+            mcall(T::Map(vec![(lit(V::Str("k".into())), lit(V::Int(1)))]), "map", vec![id("e"), id("x"), lit(V::Int(7))]),
+            mcall(id("m1"), "filter", vec![id("e"), id("x")]),
             call("bool", vec![id("x")]),
         ];
         for t in ctxs {
             let mut c = cx.case(t);
             c.bind.insert("x".into(), v.clone());
+            c.bind.insert("m1".into(), V::Map(vec![("k".into(), V::Int(1))]));
             c.forms = forms(&["bound", "lit"]);
             cx.out(c);
         }
@@ -977,6 +982,36 @@ pub fn macros(cx: &mut Ctx) {
         let mut c = cx.case(t);
         c.bind.insert("l".into(), V::List(vec![V::Int(1), V::Int(2)]));
         c.bind.insert("zero".into(), V::Int(0));
+        c.forms = forms(&["bound", "lit"]);
+        cx.out(c);
+    }
+    // the loop variable shadows everything of its name: a bound variable, a stored program, both
+    for mac in ["all", "exists", "exists_one", "filter", "map"] {
+        for (with_var, with_prog) in [(false, true), (true, true), (true, false)] {
+            for t in [
+                mcall(id("l"), mac, vec![id("x"), bin(">", id("x"), lit(V::Int(1)))]),
+                mcall(id("l"), mac, vec![id("x"), bin("==", mcall(T::List(vec![id("x")]), "map", vec![id("x"), bin("+", id("x"), lit(V::Int(1)))]), T::List(vec![lit(V::Int(3))]))]),
+                bin("+", mcall(id("l"), "map", vec![id("x"), bin("*", id("x"), lit(V::Int(2)))]), T::List(vec![id("x")])),
+            ] {
+                let mut c = cx.case(t);
+                c.bind.insert("l".into(), V::List(vec![V::Int(1), V::Int(2), V::Int(3)]));
+                if with_var {
+                    c.bind.insert("x".into(), V::Int(50));
+                }
+                if with_prog {
+                    c.progs.insert("x".into(), lit(V::Int(100)));
+                }
+                c.forms = forms(&["bound", "lit"]);
+                cx.out(c);
+            }
+        }
+    }
+    let reduce_shadow = mcall(id("l"), "reduce", vec![id("acc"), id("x"), bin("+", id("acc"), id("x")), lit(V::Int(0))]);
+    {
+        let mut c = cx.case(reduce_shadow);
+        c.bind.insert("l".into(), V::List(vec![V::Int(1), V::Int(2), V::Int(3)]));
+        c.progs.insert("x".into(), lit(V::Int(100)));
+        c.progs.insert("acc".into(), lit(V::Int(1000)));
         c.forms = forms(&["bound", "lit"]);
         cx.out(c);
     }
